@@ -596,6 +596,10 @@ class World:
             try:
                 try:
                     msg = str(e)[:300]
+                    if os.environ.get("SIM_TB"):
+                        import traceback
+
+                        msg = "".join(traceback.format_exception(e))[-2500:]
                 except BaseException:  # noqa: BLE001
                     msg = ""
             finally:
@@ -674,6 +678,14 @@ class World:
                     out = self._guarded(op)
                 finally:
                     Injector.stop()
+                if Injector.fired_at is not None and out[0] != "abort":
+                    # The abort fired but something else came out of the call.  CPython itself does
+                    # this: an exception raised inside a __hash__/__eq__ that the interpreter calls
+                    # from an error-suppressing C path (PyDict_GetItem under OrderedDict iteration)
+                    # is swallowed and replaced (KeyError).  The op is still a fault carrier: its own
+                    # outcome is never compared with a fault-free reference.
+                    Probes.hit("abort_surfaced_as_other_outcome")
+                    out = ("abort", "injected abort surfaced as " + str(out[0]) + ":" + str(out[1] if len(out) > 1 else ""))
                 if out[0] == "abort":
                     self.fired("abort")
                     if fault.get("bias_hit"):
